@@ -55,6 +55,11 @@ func CSSRule(selector string, style Style) (StyleSheet, error) {
 	if matches := invalidCSSSelectorRune.FindStringSubmatch(selectorWithoutStrings); matches != nil {
 		return StyleSheet{}, fmt.Errorf("selector %q contains %q, which is disallowed outside of CSS strings", selector, matches[0])
 	}
+	// An unquoted url( makes a CSS tokenizer read up to the next ')' as a single <url-token>
+	// (or <bad-url-token>), so quotes inside it do not delimit strings as assumed above.
+	if strings.Contains(strings.ToLower(selectorWithoutStrings), "url(") {
+		return StyleSheet{}, fmt.Errorf("selector %q contains \"url(\", which is disallowed outside of CSS strings", selector)
+	}
 	if !hasBalancedBrackets(selectorWithoutStrings) {
 		return StyleSheet{}, fmt.Errorf("selector %q contains unbalanced () or [] brackets", selector)
 	}
